@@ -1093,7 +1093,7 @@ func (n *nodeSim) isRetained(tr *btrack) bool {
 }
 
 func simWorkerHarnesses() []*simk.Harness {
-	return []*simk.Harness{{Name: "node", Gen: genNodeCase, Run: runNodeCase}}
+	return []*simk.Harness{{Name: "node", Gen: genNodeCase, Run: runNodeCase}, {Name: "store", Gen: genStoreCase, Run: runStoreCase}}
 }
 
 func TestSimWorker(t *testing.T) {
